@@ -39,6 +39,7 @@ type Engine struct {
 	anyLoopSeen   bool
 	abandoned     int
 	knownWritten  map[string]bool
+	elemPointable map[string]bool // struct types with escaping element pointers (sv.go)
 	nonNilGlobal  map[*ssa.Global]bool
 	srcCache      map[string][]string
 	usedLemmas    map[string]bool
@@ -72,6 +73,7 @@ func loadEngine(repo string, patterns []string) (*Engine, error) {
 	}
 	e.ghostSorts["now"] = "Int"
 	e.ghostTypes["now"] = mathIntT
+	e.computeElemPointable()
 	return e, nil
 }
 
@@ -431,6 +433,26 @@ func (e *Engine) genFunc(c *Contract, fn *ssa.Function, mode Mode, known map[str
 		pre = and(pre, t)
 	}
 	vc.cover("pre:cover", "true")
+	// ghost assignments at entry
+	for _, sc := range c.Sets {
+		be, ok := sc.Expr.(*ast.BinaryExpr)
+		if !ok {
+			sfail("sets: need ghost(g) = expr")
+		}
+		call, ok := be.X.(*ast.CallExpr)
+		if !ok || len(call.Args) != 1 {
+			sfail("sets: need ghost(g) = expr")
+		}
+		g := call.Args[0].(*ast.Ident).Name
+		tv := e.eval(env, be.Y)
+		if tv.Konst != nil {
+			st.ghost[g] = tv.Konst.String()
+		} else if sc, ok := tv.V.(*Sc); ok {
+			st.ghost[g] = sc.T
+		} else {
+			st.ghost[g] = e.flatten(tv.T, tv.V)[0]
+		}
+	}
 	// modifies
 	for _, m := range c.Modifies {
 		me := e.evalModifies(env, m)
@@ -797,7 +819,9 @@ func (e *Engine) initOnceNonNilError(gv *ssa.Global) bool {
 					if call, ok := st.Val.(*ssa.Call); ok {
 						if callee := call.Common().StaticCallee(); callee != nil {
 							k := funcKey(callee)
-							if k == "errors.New" || k == "fmt.Errorf" {
+							// metrics.RegisterMetric ends in a type assertion to the Metric
+							// interface, which panics on nil: a returned value is non-nil
+							if k == "errors.New" || k == "fmt.Errorf" || k == "github.com/enfein/mieru/v3/pkg/metrics.RegisterMetric" {
 								good = true
 							}
 						}
